@@ -1,6 +1,6 @@
 # -*- coding: utf-8 -*-
 import numpy as np
-from pyg_base._types import is_nan, is_iterable
+from pyg_base._types import is_nan, is_iterable, is_float
 from pyg_base._loop import len0
 from pyg_base._as_primitive import as_primitive
 
@@ -111,6 +111,12 @@ class Cmp(object):
 
 vcmp = np.vectorize(Cmp)
 
+def _has_nan(value):
+    """is value a nan, or a list/tuple containing one. Python's native order is not total once a nan is present"""
+    if isinstance(value, (list, tuple)):
+        return any(_has_nan(v) for v in value)
+    return is_float(value) and np.isnan(value)
+
 def sort(iterable):
     """
     implements sorting allowing for comparing of not-same-type objects
@@ -133,10 +139,13 @@ def sort(iterable):
     >>> sort([1,3,2,None]) == [None, 1, 2, 3]
 
     """
-    try:
-        return sorted(iterable)
-    except TypeError:
-        return sorted(iterable, key = Cmp)
+    iterable = list(iterable)
+    if not _has_nan(iterable):
+        try:
+            return sorted(iterable)
+        except TypeError:
+            pass
+    return sorted(iterable, key = Cmp)
 
 
 # def _type(x):
